@@ -181,6 +181,35 @@ def invariances(ctx, ff, vals, rng):
             ctx.violation("flip_flop_index invariance: " + name, {"values": vals, "c": c, "k": k, "transformed": w}, expect, got)
 
 
+FINDING = "sector-near-duplicate-angles"
+
+
+def near_duplicates(vals):
+    """two directions that differ (mod 360) by floating-point noise but are not equal"""
+    r = sorted(float(v) % 360.0 for v in vals)
+    gaps = [b - a for a, b in zip(r, r[1:])] + [r[0] + 360.0 - r[-1]]
+    return any(0.0 < g < 1e-9 for g in gaps)
+
+
+def exact_sector(ctx, vals):
+    """proved specification (360 - largest circular gap) on the exact rational values of the floats"""
+    return core.dec_nums(ctx.model("c18_seq", enc_list([enc_list([enc_num(Fraction(float(v))) for v in vals])])))[4]
+
+
+def known_cases(ctx, ff):
+    """the recorded defect (known_findings.d/C18.json): fixed tiny inputs, evaluated on every run"""
+    for vals in ([10.0, 10.000000000000002, 50.0], [176.75099999999998, 176.751, 244.251]):
+        spec = exact_sector(ctx, vals)
+        got = float(ff.encompassing_sector_size(seq_da(vals), []))
+        idx = float(ff.flip_flop_index(seq_da(vals), "t", is_angular=True))
+        ctx.case(("known", tuple(vals)))
+        if not core.close(got, spec):
+            ctx.violation("encompassing_sector_size differs from 360 - largest circular gap (near-duplicate directions)",
+                          {"values": vals, "angular_index": idx}, str(spec), got, finding_key=FINDING)
+        elif idx < -1e-9:
+            ctx.violation("angular flip_flop_index is negative", {"values": vals}, ">= 0", idx)
+
+
 def rotation(ctx, ff, vals, rng):
     if len(vals) < 3:
         return
@@ -193,10 +222,12 @@ def rotation(ctx, ff, vals, rng):
     sa = float(ff.encompassing_sector_size(seq_da(vals), []))
     sb = float(ff.encompassing_sector_size(seq_da(w), []))
     ctx.case(("rot", tuple(vals), rot))
+    # rounding in `+ rot` / `% 360` can split one direction into two that differ by noise: the recorded defect
+    key = FINDING if near_duplicates(w) and not near_duplicates(vals) else None
     for name, x, y in (("angular flip_flop_index", a, b), ("encompassing_sector_size", sa, sb)):
         ok = (np.isnan(x) and np.isnan(y)) or abs(x - y) <= 1e-9 * max(1.0, abs(x))
         if not ok:
-            ctx.violation(name + " changes when all directions are rotated", {"values": vals, "rotation": rot}, x, y)
+            ctx.violation(name + " changes when all directions are rotated", {"values": vals, "rotation": rot}, x, y, finding_key=key)
     if not np.isnan(sa) and not (-1e-12 <= min(sa, 180.0) <= 180.0):
         ctx.violation("angular range outside [0,180]", {"values": vals}, "[0,180]", sa)
 
@@ -310,6 +341,7 @@ def prop_level(ctx, ff, rng, i):
 def run(ctx):
     ff = S()
     rng = ctx.rng
+    known_cases(ctx, ff)
     # exhaustive small angle sets on a 45-degree grid: every multiset of 1..4 directions (ties between gaps, 180 gaps)
     grid = [45.0 * k for k in range(8)]
     import itertools
